@@ -427,10 +427,11 @@ for _p in ():
 
 # ------------------------------------------------------------------ translation tie (Rust AST regenerated by /verif/translator)
 CODE_TIE = {'C05': ['Client'], 'C06': ['Client'], 'C14': ['Client'], 'C01': ['Client', 'Updater', 'Extract', 'Drift'],
-            'C07': ['Extract'], 'C10': ['Extract', 'Leap'], 'C08': ['Updater'], 'C09': ['Updater'], 'C19': ['Drift']}
+            'C07': ['Extract'], 'C10': ['Extract', 'Leap'], 'C08': ['Updater'], 'C09': ['Updater'], 'C19': ['Drift'], 'C11': ['Gen']}
 _TIE_WHAT = {'Client': 'ClockErrorBound::compute_bound_at = computeBoundAt', 'Leap': 'ChronyClockStatus::from(u16) = leapClass',
              'Extract': 'extract_bound_from_tracking = (boundF, classify)', 'Updater': 'ShmUpdater::{new, process_clock_update, process_missing_clock_update, write_clock_error_bound} = Updater.{new, step, record}',
-             'Drift': 'the ppm->ppb conversion in main = driftPpb'}
+             'Drift': 'the ppm->ppb conversion in main = driftPpb',
+             'Gen': 'the shared accesses of ShmWriter::write, with their memory orderings, and its generation arithmetic = [load gen Acquire, store genStart Release, fence Release, record copy, store genFinish(genStart) Release]'}
 for _p, _g in CODE_TIE.items():
     if _p in PROPS:
         PROPS[_p]['code_tie'] = [f'ClockBound.Properties.CodeTie{_x}' for _x in _g]
